@@ -22,9 +22,11 @@ import (
 //	convCode  digit 9 in an input position means a provider (no inputs)
 func hTemplate(fam, nT, nV, convCode, form, errMode int) *hWorld {
 	if fam >= 100 {
-		return hSkeleton(fam-100, form, errMode)
+		sw := hSkeleton(fam-100, form, errMode)
+		sw.Mode = errMode
+		return sw
 	}
-	w := &hWorld{}
+	w := &hWorld{Mode: errMode}
 	hMaxType = -1
 	symOnce := errMode&2 != 0
 	weakDistinct := errMode&4 != 0
@@ -134,9 +136,31 @@ func hSameSig(a, b hFuncSpec) bool {
 // hCall builds the world's functions and performs the call, shielding the
 // harness from panics (which are C06's subject).
 func (w *hWorld) hCall() (r Result, built bool, panicked bool, pmsg string) {
-	args, ok := w.hBuildAll()
+	var args []Arg
+	var ok bool
+	if w.Mode&16 != 0 {
+		// every value and converter is a construction default; the call passes no options
+		ok = w.hBuildAllAsDefaults()
+	} else {
+		args, ok = w.hBuildAll()
+	}
 	if !ok {
 		return Result{}, false, false, ""
+	}
+	if w.Mode&8 != 0 && vnBool("priorCall") {
+		// the same target was called before with a complete set of exactly matching values
+		// (fresh payloads): nothing of that call may leak into this one
+		var full []Arg
+		for i, p := range w.Target.In {
+			t := p.T
+			if t == hTI {
+				t = hTP2
+			}
+			full = append(full, NamedSubtype(p.Name, hMk(t, vnPayload("prior", i)), p.Sub))
+		}
+		hGuardPlain(func() { w.Funcs[0].Call(full...) })
+		vnNoteAppend(" [after a complete earlier call]")
+		w.Log = nil
 	}
 	func() {
 		defer func() {
